@@ -333,6 +333,7 @@ func scripted(tag string, feeOn, fork bool, steps func(g *gstate)) []string {
 	setup()
 	g := newG(rand.New(rand.NewSource(int64(len(tag))*7919+1)), tag, feeOn, fork)
 	steps(g)
+	genuine.Store(hashOps(g.lines), true)
 	return g.lines
 }
 
